@@ -145,6 +145,21 @@ pub fn record_bot(opts: &Opts) -> i32 {
         after_set = true;
         writeln!(out, "{}", json!({"ev": "set_board", "arg": pos_json(&root), "board": pos_json(&engine.board())})).unwrap();
         events += 1;
+        if mode != "long" && rng.gen_range(0..2) == 0 {
+            // a proposal asked for in the very position that was set (nothing may be counted for it): the
+            // shuffles that follow come back to this position
+            let k = rng.gen_range(0..80);
+            op!("record-bot evaluate k={k} right after set_board on {}", engine.board());
+            let t = CountingTimeout::at(k);
+            let (mv, sc) = engine.evaluate(&t);
+            if mv.is_some() {
+                last_prop = mv;
+            }
+            calls += 1;
+            writeln!(out, "{}", json!({"ev": "evaluate", "k": k, "mv": mv.map_or(-1i64, |m| code(m) as i64), "score": score_json(sc),
+                                       "board": pos_json(&engine.board())})).unwrap();
+            events += 1;
+        }
         let mut prev: Vec<ChessMove> = vec![];
         let plies = if mode == "long" { 1100 } else { rng.gen_range(20..120) };
         for ply in 0..plies {
